@@ -174,6 +174,8 @@ def cases(rng, tier, shard, nshards):
             pts, meta = gen.curve(rng, nmax=2500, nmin=400)
         elif tier == 'thorough' and r < 0.10:
             pts, meta = gen.curve(rng, nmax=400, nmin=80)
+        elif r > 0.985:
+            pts, meta = gen.curve(rng, nmax=600, nmin=150)     # deep partitions also in the quick tier
         else:
             pts, meta = gen.curve(rng, nmax=80)
         cs = pick(rng, COSTS)
